@@ -18,8 +18,98 @@ def tup(p):
     return tuple(p)
 
 
+# --- map backend as a workload dimension -------------------------------------------------------------------------
+# A check that builds its maps with make_inmem can run a fraction of its cases on SqliteMap instead: no result may
+# depend on the backend beyond the order in which equally good alternatives are listed, and every oracle of such a
+# check compares executions on the SAME backend or judges a single execution.
+_BACKEND = {"kind": None, "scratch": None, "open": []}
+
+
+def sqlite_ok(m):
+    """SqliteMap stores integer ids; linked edges are only available through connect_parallelroads."""
+    return all(isinstance(l, int) and not isinstance(l, bool) for l, _ in m["nodes"]) and not m.get("linked")
+
+
+class sqlite_backend:
+    def __init__(self, on, scratch, bulk=True, prior=None):
+        self.on, self.scratch, self.bulk, self.prior = on, scratch, bulk, prior
+
+    def __enter__(self):
+        if self.on:
+            _BACKEND.update(kind="sqlite", scratch=self.scratch, open=[], bulk=self.bulk, prior=self.prior)
+        return self
+
+    def __exit__(self, *a):
+        for sm in _BACKEND["open"]:
+            try:
+                close_sqlite(sm)
+            except Exception:
+                pass
+        _BACKEND.update(kind=None, scratch=None, open=[])
+        return False
+
+
+def backend_dimension(p):
+    """decorator pair (like env.debug_dimension): a fraction p of the eligible cases gets case["backend"]="sqlite"."""
+    def gen_(gen_case):
+        def wrapped(rng, i, tier):
+            case = gen_case(rng, i, tier)
+            if isinstance(case, dict) and "backend" not in case and isinstance(case.get("map"), dict):
+                r = rng.random()
+                # node states are left out: InMemMap lists a node as its own neighbour and SqliteMap does not (the difference
+                # property C12 itself allows), so "staying at a node" only exists on InMemMap
+                if r < p and sqlite_ok(case["map"]) and (case.get("cfg") or {}).get("family") != "simple_nodes":
+                    case["backend"] = "sqlite"
+                    case["sqlite_bulk"] = rng.random() < 0.5
+                    if rng.random() < 0.35:
+                        case["sqlite_prior"] = prior_spec(rng)
+                elif r < 1.5 * p:
+                    # InMemMap built the documented way, node by node and road by road, instead of from a graph dict
+                    case["backend"] = "inmem_incremental"
+            return case
+        return wrapped
+
+    def chk(check_case):
+        def wrapped(ctx, case):
+            on = isinstance(case, dict) and case.get("backend") == "sqlite"
+            if on:
+                ctx.count("sqlite_backend_cases")
+            inc = isinstance(case, dict) and case.get("backend") == "inmem_incremental"
+            if inc:
+                ctx.count("incremental_inmem_cases")
+                _BACKEND["incremental"] = True
+                ctx.case_backend = {"incremental": True}
+                try:
+                    return check_case(ctx, case)
+                finally:
+                    _BACKEND["incremental"] = False
+                    ctx.case_backend = None
+            ctx.case_backend = {"bulk": case.get("sqlite_bulk", True), "prior": case.get("sqlite_prior")} if on else None
+            try:
+                with sqlite_backend(on, ctx.scratch, bulk=case.get("sqlite_bulk", True) if on else True,
+                                    prior=case.get("sqlite_prior") if on else None):
+                    return check_case(ctx, case)
+            finally:
+                ctx.case_backend = None
+        return wrapped
+    return gen_, chk
+
+
 def make_inmem(m, name="m"):
+    if _BACKEND["kind"] == "sqlite" and sqlite_ok(m):
+        sm = make_sqlite(m, _BACKEND["scratch"], bulk=_BACKEND.get("bulk", True), prior=_BACKEND.get("prior"))
+        _BACKEND["open"].append(sm)
+        return sm
     graph = {l: ((p[0], p[1]), list(n)) for l, (p, n) in gen.graph_dict(m).items()}
+    if _BACKEND.get("incremental") and not m.get("linked"):
+        mp = InMemMap(name, use_latlon=bool(m.get("latlon")))
+        for l, (p, n) in graph.items():
+            mp.add_node(l, p)
+        for l, (p, n) in graph.items():
+            for b in n:
+                if b in graph:
+                    mp.add_edge(l, b)
+        return mp
     linked = None
     if m.get("linked"):
         linked = {}
@@ -28,8 +118,27 @@ def make_inmem(m, name="m"):
     return InMemMap(name, graph=graph, use_latlon=bool(m.get("latlon")), linked_edges=linked)
 
 
-def make_sqlite(m, scratch, bulk=True, name=None):
+def prior_spec(rng):
+    """an EARLIER map that lived in the same database file (see make_sqlite): same labels and node pairs, other places."""
+    return {"shift": [rng.choice([0.0, 50.0, -300.0]), rng.choice([40.0, -75.0, 1000.0])], "squeeze": rng.choice([0.01, 0.05, 1.0]),
+            "link": rng.choice([0.5, 2.0, 10.0]), "bulk": rng.random() < 0.5}
+
+
+def make_sqlite(m, scratch, bulk=True, name=None, prior=None):
+    """`prior`: the database file is REUSED - an earlier SqliteMap with the same name and directory held a map with the same
+    labels and directed edges at other coordinates (shifted, squeezed so that roads lie close and parallel), had its
+    parallel roads linked, and was closed.  Constructing the new map must leave nothing of it behind."""
     name = name or f"map{os.getpid()}_{next(_counter)}"
+    if prior:
+        sc = 1e-3 if m.get("latlon") else 1.0
+        dy, dx = prior["shift"][0] * sc, prior["shift"][1] * sc
+        m0 = dict(m)
+        m0["nodes"] = [[l, [p[0] * prior["squeeze"] + dy, p[1] + dx]] for l, p in m["nodes"]]
+        old = make_sqlite(m0, scratch, bulk=prior.get("bulk", True), name=name)
+        try:
+            old.connect_parallelroads(dist=prior["link"] * (30.0 if m.get("latlon") else 1.0))
+        finally:
+            old.db.close()
     sm = SqliteMap(name, use_latlon=bool(m.get("latlon")), dir=scratch)
     nodes = [(l, (p[0], p[1])) for l, p in m["nodes"]]
     edges = []
@@ -68,11 +177,15 @@ def matcher_kwargs(cfg):
     if cfg["family"] == "distance":
         if cfg.get("dist_noise") is not None:
             kw["dist_noise"] = cfg["dist_noise"]
+        if cfg.get("dist_noise_ne") is not None:
+            kw["dist_noise_ne"] = cfg["dist_noise_ne"]
         kw["restrained_ne"] = cfg.get("restrained_ne", True)
     elif cfg["family"] == "newsonkrumm":
         kw.pop("avoid_goingback", None)
         if cfg.get("beta") is not None:
             kw["beta"] = cfg["beta"]
+        if cfg.get("beta_ne") is not None:
+            kw["beta_ne"] = cfg["beta_ne"]
     else:
         kw["only_edges"] = cfg["family"] == "simple"
     return kw
